@@ -364,6 +364,19 @@ def library_panic(out):
                 if fn.startswith("github.com/aperturerobotics/util/") and "/verifhook." not in fn:
                     return {"panic": m.group(1)[:200], "frame": fn[:200], "kind": "livelock"}
                 break
+        # nothing runs: a goroutine of the bubble waiting for a sync.Mutex / RWMutex from library code (the
+        # controller never parks a goroutine that holds a library lock, so the lock will not be released:
+        # synctest does not regard such a wait as durable and the execution can never settle)
+        for blk in re.split(r"\n\s*\n", tail):
+            h = re.match(r"goroutine \d+ \[sync\.(?:RW)?Mutex\.R?Lock[^\n]*synctest bubble[^\n]*\n", blk)
+            if not h:
+                continue
+            for fn in re.findall(r"^(\S+)\(", blk[h.end():], re.M):
+                if fn.startswith(("runtime.", "runtime/", "internal/", "sync.", "sync/")):
+                    continue
+                if fn.startswith("github.com/aperturerobotics/util/") and "/verifhook." not in fn:
+                    return {"panic": "deadlock: " + m.group(1)[:180], "frame": fn[:200], "kind": "deadlock"}
+                break
         return None
     g = re.search(r"^goroutine \d+ \[running[^\n]*\n((?:.+\n)+)", tail, re.M)
     if not g:
@@ -568,6 +581,9 @@ def standard_check(prop, tier, seed, fam):
         if c.get("kind") == "livelock":
             # a library goroutine spinning on the CPU: the family's own name for "loops without progress"
             nm = next((k for k in ("Livelock", "Spin", "AwaitSpin", "Stuck") if k in fam["property_of"]), "Panic")
+        elif c.get("kind") == "deadlock":
+            # a library goroutine waiting for a library mutex that nobody will release
+            nm = next((k for k in ("ApiBlocked", "Deadlock", "Stuck", "Livelock", "Spin", "AwaitSpin") if k in fam["property_of"]), "Panic")
         viol.append({"names": [nm], "run": c["run"], "seq": 0, "l": 0, "trace_file": c["trace_file"], "crash": c})
     mine, harness_err = [], []
     pof = fam["property_of"]
